@@ -10,7 +10,7 @@ NOQ = M("NOQ")
 FIXES_NOW = ["perf", "remove", "aq", "sig", "uniq", "concat"]
 
 ALL_KINDS = ["FC", "TCONV", "BMM", "EMB", "EW2", "EW1", "EW1A", "SAMEIN0", "SAMEIN1", "SAMEIN3", "SPLIT", "CONCAT", "CONCAT3",
-             "FIXSL", "FIXT", "UNSUP"]
+             "FIXSL", "FIXT", "UNSUP", "UNSUP2"]
 
 MODES_W_RICH = [NOQ, M("SRQ", "a8a", "w8c"), M("SRQ", "a16", "w8c"), M("SRQ", "a8s", "w8t"), M("DRQ", "-", "w8c"),
                 M("DRQ", "-", "w8t"), M("WO", "-", "w8c"), M("WO", "-", "w8ca"), M("F16")]
@@ -30,7 +30,7 @@ def km_generic(kinds, modes_w, modes_a):
   float16 casting), UNSUP only no-quantize, the rest modes_a."""
   km = {}
   for k in kinds:
-    if k == "UNSUP":
+    if k in ("UNSUP", "UNSUP2"):
       km[k] = [NOQ]
     elif k in WEIGHT_KINDS:
       km[k] = [m for m in modes_w if not (k == "EMB" and '"SRQ"' in m) and not (k == "BMM" and '"F16"' in m)]
@@ -43,10 +43,10 @@ def km_expr(km):
   return "(" + " @@ ".join('"%s" :> %s' % (k, S(v)) for k, v in km.items()) + ")"
 
 
-def cfg(max_ops, kinds, modes_w, modes_a, io, share="tensor", max_sub=1, max_ins=1, fixes=None, km=None, dup="no", layout="alloc"):
+def cfg(max_ops, kinds, modes_w, modes_a, io, share="tensor", max_sub=1, max_ins=1, fixes=None, km=None, dup="no", layout="alloc", sigorder="same"):
   km = km or km_generic(kinds, modes_w, modes_a)
   return dict(MaxOps=str(max_ops), MaxSub=str(max_sub), MaxIns=str(max_ins), Kinds=K(kinds), KM=km_expr(km),
-              IOModes=S(io), Share='"%s"' % share, Dup='"%s"' % dup, Layout='"%s"' % layout, Fixes=K(FIXES_NOW if fixes is None else fixes))
+              IOModes=S(io), Share='"%s"' % share, Dup='"%s"' % dup, Layout='"%s"' % layout, SigOrder='"%s"' % sigorder, Fixes=K(FIXES_NOW if fixes is None else fixes))
 
 
 def quick_configs():
@@ -59,6 +59,9 @@ def quick_configs():
       # a tensor listed twice among the subgraph outputs (return y, y)
       "q3_dupout_2op": cfg(2, ["FC", "EW1", "FIXT"], [NOQ, M("SRQ", "a8a", "w8c"), M("WO", "-", "w8c")],
                            [NOQ, M("SRQ", "a8a", "w8c")], IO_2, share="none", dup="only"),
+      # signatures that list inputs / outputs in another order than the subgraph; a binary operator the quantizer does not know
+      "q5_sigrev_2op": cfg(2, ["FC", "EW2", "UNSUP2"], [NOQ, M("SRQ", "a8a", "w8c")],
+                           [NOQ, M("SRQ", "a8a", "w8c")], IO_2, share="tensor", sigorder="rev", max_ins=2),
       # tensor table with all activations before all constants (legal, unusual)
       "q4_actsfirst_2op": cfg(2, ["FC", "EW2", "FIXT"], [NOQ, M("SRQ", "a8a", "w8c"), M("WO", "-", "w8c"), M("F16")],
                               [NOQ, M("SRQ", "a8a", "w8c")], IO_2, share="tensor", layout="actsfirst"),
